@@ -801,6 +801,8 @@ def rule_read_forbid(rep, crate, cfg):
         if len(slice_calls) != 1:
             rep.viol(rid, '%s::read:no-checked-slice' % tyn, 'from_slice argument does not come from one checked slice()/get() call', where)
             continue
+        if not re.search(r'^<\[u8\] as source::Source>::slice$|slice::<impl \[T\]>::get$', fn.callee_name(slice_calls[0][1])):
+            rep.viol(rid, '%s::read:not-byte-slice' % tyn, 'the chunk is taken with %s: only a byte-level sub-slice has the same Some-condition as the raw read (a str sub-slice also fails inside multi-byte characters)' % fn.callee_name(slice_calls[0][1]), where)
         b, t = slice_calls[0]
         rng = trace(fn, t['args'][1])
         ok = False
